@@ -61,7 +61,8 @@ pub fn swarm_schedule(s: &mut ExecSpec, rng: &mut Rng, expected_steps: u64) {
     s.sched_seed = rng.next_u64();
     s.expected_steps = expected_steps.max(16);
     s.cap_limit = if rng.chance(1, 2) { Some(*rng.pick(&[1usize, 1, 2, 4, 8])) } else { None };
-    s.step_budget = expected_steps.saturating_mul(50).saturating_add(5000);
+    // word-level checks can report several messages per 10 input bytes: scale with the input too
+    s.step_budget = expected_steps.saturating_mul(50).saturating_add(5000).saturating_add(s.input.len() as u64 * 2);
 }
 
 /// Benign I/O faults: legal for any reader/writer and required to be invisible.
